@@ -534,6 +534,51 @@ def check_dispatch(rep, decls):
                     rep.violation(Finding(rule, "diff::dr", inst, "dr<%d, %s> for a callable with jacobian=%s, hessian=%s returns %s; expected %s" % (K, D, has_j, has_h, got, want), *A.loc(fn.node)))
 
 
+def check_forwarders(rep, decls):
+    """D.fwd: the convenience overloads dr<K>(f, x) and dr<K>(f, x, idx) hand every one of their arguments on to the dispatcher with Type::Default"""
+    rule = "D.fwd"
+    fws = [d for d in decls.get("dr", []) if not any(x.get("kind") in ("IfStmt", "LambdaExpr") for x in A.walk(A.body(d.node)))]
+    if len(fws) < 2:
+        rep.note("D.fwd: %d plain forwarding overloads of diff::dr found (2 on the tree this rule was written for); an overload with its own logic is outside this rule" % len(fws))
+    for fn in fws:
+        n = len(A.params(fn.node))
+        inst = "dr<K>(%s)" % ", ".join(["f", "x", "idx"][:n])
+        f = FModel(True, True)
+        args = [TVec([Fraction(1), Fraction(2)], "w")]
+        M = DiffMachine(decls, f, args, 1)
+        seen = []
+
+        def hook(M_, a_, env, name, seen=seen):
+            seen.append((name, [M_.rv(M_.ev(a, env)) for a in a_]))
+            return mmodels.Term("inner")
+        M.funcs["dr"] = PyFunc(hook, lazy=True)
+        idx = mmodels.Term("index_sequence")
+        vals = [Cell(f), Cell(Tup([Cell(a) for a in args])), Cell(idx)][:n]
+        try:
+            res = M.rv(M.run_function(fn, vals))
+        except Unab as ex:
+            rep.broke("D.fwd: %s is outside the abstract machine: %s" % (inst, ex))
+            continue
+        except AbstractViolation as ex:
+            rep.instance(rule, "diff::dr", inst, ok=False, sample={})
+            rep.violation(Finding(rule, "diff::dr", inst, "%s: %s" % (inst, ex), *A.loc(fn.node)))
+            continue
+        bad = None
+        if len(seen) != 1 or show_val(res) != "inner":
+            bad = "does not return the result of one call of the dispatcher (%d calls)" % len(seen)
+        else:
+            name, got = seen[0]
+            if "Default" not in (name or ""):
+                bad = "calls %s; the overload without a method is documented as Type::Default" % name
+            elif len(got) != n:
+                bad = "hands %d of its %d arguments on to the dispatcher (%s): %s" % (len(got), n, name, "the index subset is dropped, so the full derivative is returned" if n == 3 else "an argument is dropped")
+            elif got[0] is not f:        # (the index sequence is an empty tag object: only its presence matters)
+                bad = "hands other objects than its own arguments on to the dispatcher"
+        rep.instance(rule, "diff::dr", inst, ok=bad is None, sample={})
+        if bad:
+            rep.violation(Finding(rule, "diff::dr", inst, "%s %s" % (inst, bad), *A.loc(fn.node)))
+
+
 def redispatch(M, fn, args, env, name):
     """a recursive call dr<K, OtherType>(f, x) of the dispatcher: executed with D rebound"""
     m = re.search(r"dr<\s*(\w+)\s*,\s*([\w:]+)\s*>", name or "")
@@ -560,6 +605,8 @@ def check(rep, tier):
     check_num(rep, decls, 1)
     check_num(rep, decls, 2)
     check_dispatch(rep, decls)
+    rep.rule("D.fwd", "the convenience overloads dr<K>(f, x) and dr<K>(f, x, idx), abstractly executed: every argument reaches the dispatcher, with Type::Default", minimum=1)
+    check_forwarders(rep, decls)
 
 
 def check_step_floor(rep, rule_id):
